@@ -122,6 +122,15 @@ def handle : Protocol.Handler := fun j => do
     let txt := render (oracle pr) ps
     return Json.mkObj [("text", encStr txt), ("toks", listJ ((ps.filterMap Piece.toTok).map encTok)),
       ("lexed", match tokenize txt with | none => Json.null | some ts => listJ (ts.map encTok))]
+  | "keyseq" =>
+    -- `_parenthesize(parentheses, strings)`: text, the tokens it must have, and what the model lexer makes of the text
+    let ks ← (← fieldArr j "keys").mapM decStr
+    let pr ← fieldS j "printable"
+    let o ← fieldNat j "open"
+    let c ← fieldNat j "close"
+    let txt := render (oracle pr) (keySeq o c ks)
+    return Json.mkObj [("text", encStr txt), ("toks", listJ ((keySeqToks o c ks).map encTok)),
+      ("lexed", match tokenize txt with | none => Json.null | some ts => listJ (ts.map encTok))]
   | "namespace" =>
     let occ ← (← fieldArr j "occupied").mapM decStr
     let allow ← (fieldBool j "allow_builtins" <|> pure false)
